@@ -8,12 +8,16 @@ WS = ["", "", "", " ", " ", "  ", "\t", "\n", "\r\n", "\f", " \n "]
 KEY_NUMBERS = [1, 2, 7, 42, 499, 500, 501, 900, 901, 950, 999, 2000, 2499, 0, 1000, 1999, 2500, 12345]
 
 
-def operand_text(rng, i, kinds=("key", "key", "key", "pkg", "rep", "time")):
-    """concrete operand for operand number i: returns (string, canonical leaf text)"""
+def operand_text(rng, i, kinds=("key", "key", "key", "pkg", "rep", "time"), cluster=None):
+    """concrete operand for operand number i: returns (string, canonical leaf text). With `cluster` all keys of the expression are neighbours of one
+    number at a digit-length or range boundary (8..12, 98..102, 998..1002, ...), so that keys are numerically close but textually different."""
     kind = rng.choice(kinds)
     inner_ws = rng.choice(["", "", "", " ", "\t"])
     if kind == "key":
-        n = rng.choice(KEY_NUMBERS) if rng.random() < 0.4 else rng.randint(1, 2600)
+        if cluster is not None:
+            n = max(0, cluster + rng.randint(-2, 3))
+        else:
+            n = rng.choice(KEY_NUMBERS) if rng.random() < 0.4 else rng.randint(1, 2600)
         txt = str(n)
         if rng.random() < 0.08:
             txt = "0" * rng.randint(1, 2) + txt
@@ -23,7 +27,7 @@ def operand_text(rng, i, kinds=("key", "key", "key", "pkg", "rep", "time")):
         return f"[{inner_ws}{n}P{inner_ws}]", ("pkg", f"{n}P")
     if kind == "rep":
         n = rng.randint(0, 999)
-        a, b = rng.choice([(0, 1), (1, 1), (0, 10), (3, 5), (12, 99), (0, 100), (7, 7), (5, 3)])
+        a, b = rng.choice([(0, 1), (1, 1), (0, 10), (3, 5), (12, 99), (0, 100), (7, 7), (1, 2)])
         mid = rng.choice(["", "", " "])
         return f"[{inner_ws}{n}P{mid}{a}..{b}{inner_ws}]", ("pkg", f"{n}P {a}..{b}")
     n = rng.randint(1, 3)
@@ -36,13 +40,14 @@ def render_tokens(toks, rng, kinds=("key", "key", "key", "pkg", "rep", "time"), 
     leaves = []
     n = 0
     wrap_whole = (not plain) and rng.random() < redundant
+    cluster = None if plain or rng.random() < 0.6 else rng.choice([9, 10, 99, 100, 999, 1000, 499, 500, 900, 2000])
     for t in toks:
         if t == "a":
             n += 1
             if plain:
                 s, leaf = f"[{n}]", ("key", str(n))
             else:
-                s, leaf = operand_text(rng, n, kinds)
+                s, leaf = operand_text(rng, n, kinds, cluster)
             if not plain and rng.random() < redundant:
                 s = "(" + rng.choice(["", " "]) + s + rng.choice(["", " "]) + ")"
                 if rng.random() < 0.3:
